@@ -12,6 +12,7 @@ mod c07;
 mod c08;
 mod c09;
 mod c10;
+mod c10_compile;
 mod c11;
 mod c12;
 mod c13;
@@ -121,6 +122,7 @@ fn main() {
         "c20-json" => c20_json::run(&ctx),
         "c10-eval" => c10::eval(&ctx),
         "c10-gate" => c10::gate(&ctx),
+        "c10-compile" => c10_compile::run(&ctx),
         "c04-builtin" => c04::run(&ctx),
         "c07-check" => c07::check(&ctx),
         "c07-run" => c07::rt::run(&ctx),
